@@ -12,7 +12,7 @@ The same machine has a closed instance (spec/MC_GroupRun.tla): a pool of small g
 FailAllReaches, StopAllIsFinal, YieldedInOrder, MemberInStep) and every terminal state is replayed into the real CsvPaths."""
 import json
 
-from checks import c09, runfam, mcrun, jointrun, mcgroup, repotraces
+from checks import c09, runfam, mcrun, jointrun, mcgroup, repotraces, errruns
 from lib import common, scratch
 from lib.tlc import MachineryError
 
@@ -50,7 +50,9 @@ def main(tier):
     return runfam.run(PID, tier, groups=("core", "control", "validity"), judged=JUDGED, ncases=n, seed_salt=400,
                       pre=lambda rep: (aggregation(rep, tier), mcrun.run_pool(rep, tier, {"valid"}, PID), repotraces.run(rep, tier, JUDGED, PID),
                                        jointrun.run(rep, tier, {"valid", "final_valid", "all_valid"}, PID, n=80 if tier == "quick" else 2500),
-                                       mcgroup.run_pool(rep, tier, {"valid", "allValid"}, PID)))
+                                       mcgroup.run_pool(rep, tier, {"valid", "allValid"}, PID),
+                                       # "... or an error is handled under a policy that includes 'fail', and once False it never returns to True"
+                                       errruns.error_runs(rep, tier, JUDGED, groups=("core", "validity", "errors"), n=700 if tier == "quick" else 8000, salt=404)))
 
 
 def replay(path):
